@@ -340,7 +340,7 @@ fn main() {
     let envn = |k: &str, d: usize| std::env::var(k).ok().and_then(|s| s.parse().ok()).unwrap_or(d);
     let cores = std::thread::available_parallelism().map(|n| n.get()).unwrap_or(4).min(16);
     let nworkers = envn("VERIF_THREADS", cores.min(if thorough { 12 } else { 8 }));
-    let n_mutants = envn("VERIF_C12_MUTANTS", if thorough { 40000 } else { 1500 });
+    let n_mutants = envn("VERIF_C12_MUTANTS", if thorough { 15000 } else { 1500 });
     let n_optsets = envn("VERIF_C12_OPTSETS", if thorough { 1500 } else { 200 });
     let n_targets = if thorough { 20000 } else { 2000 };
     let mut r = Rng::new(a.seed ^ 0xC12);
